@@ -12,7 +12,7 @@ RULE = ("E1, complete products: ('len', n, content class, key, variant) = every 
         "(zeros, FF, seed-derived, 1..3 trailing 00) x 3 keys x {customer-key encryptor, security-code encryptor}; ('crc', L, hi/lo, v) = "
         "for payload lengths 2, 14, 26 one payload per value 0..255 of the CRC low byte and of the high byte plus CRC 0000 "
         "(found with the reference CRC), length 1: all 256 payloads; ('ck', len, pos) = customer key at every position 0..len-10 "
-        "for len <= 48 and boundary positions above; ('neg', ...) = reference-built frames with every wrong marker value, every "
+        "for len <= 48 and boundary positions above; ('ckdup', ...) = payloads containing the customer key's bytes outside the slot; ('neg', ...) = reference-built frames with every wrong marker value, every "
         "single-bit CRC error, payload bit errors, wrong customer key, and frames made under another key. ('reuse', variant, ops) = every sequence of 2..3 operations (encrypt 3 payloads, decrypt 2 frames, decrypt a damaged frame) on ONE live encryptor object. Oracle: ciphertext byte-identical "
         "to the reference container (CBC, zero IV, 'B', len+2, 1..16 zeros, payload, CRC-16), decrypt(encrypt(p)) == p, negatives raise. "
         "Distinct = distinct case tuples; non-trivial = all (each runs real encrypt and/or decrypt).")
@@ -83,6 +83,11 @@ def cases(ctx):
         poss = range(0, ln - 9) if ln <= full_upto else sorted({0, 1, 5, 6, 7, ln - 26, ln - 11, ln - 10})
         for pos in poss:
             yield ("ck", ln, pos)
+    # payloads that contain the customer key's own bytes outside the slot (a copy before / after it, overlapping runs)
+    for ln in (26, 30, 40):
+        for pos in (0, 3, ln - 10):
+            for variant in ("copy-after", "copy-before", "all-same-byte", "overlap-left", "overlap-right"):
+                yield ("ckdup", ln, pos, variant)
     for ln in (0, 1, 11, 26, 27, 28, 100):
         for m in range(256):
             if m != 0x42:
@@ -186,6 +191,27 @@ def run_case(ctx, case):
         out = p[:pos] + bytes(10) + p[pos + 10:]
         enc = SoftwareCustKeyEncryptor(key, ck, pos)
         return positive(o, enc, key, p, wrapped, out, "customer key at %d of %d" % (pos, ln))
+    if kind == "ckdup":
+        _, ln, pos, variant = case
+        key = key_of(ctx, 2)
+        ck = ctx.sym("c08-ck", 10) if variant != "all-same-byte" else b"\x45" * 10
+        p = bytearray(shapes.payload(ctx, "c08-ckd-%d" % ln, ln, 0))
+        if variant == "all-same-byte":
+            p = bytearray(b"\x45" * ln)
+        elif variant == "copy-after" and pos + 20 <= ln:
+            p[pos + 10:pos + 20] = ck
+        elif variant == "copy-before" and pos >= 10:
+            p[pos - 10:pos] = ck
+        elif variant == "overlap-left" and pos >= 3:
+            p[pos - 3:pos + 7] = ck
+        elif variant == "overlap-right" and pos + 13 <= ln:
+            p[pos + 3:pos + 13] = ck
+        elif variant != "all-same-byte":
+            return Outcome("variant-does-not-fit", False)
+        p = bytes(p)
+        wrapped = p[:pos] + ck + p[pos + 10:]
+        out = p[:pos] + bytes(10) + p[pos + 10:]
+        return positive(o, SoftwareCustKeyEncryptor(key, ck, pos), key, p, wrapped, out, "customer key bytes also %s (slot %d of %d)" % (variant, pos, ln))
     if kind == "reuse":
         variant = case[1]
         key = key_of(ctx, 2)
